@@ -22,6 +22,26 @@ use std::io::{Read, Write};
 use std::panic::{catch_unwind, AssertUnwindSafe};
 
 const PROP: &str = "C05";
+/// Second stage of the check: the same simulator built with the library at opt-level 0 and with
+/// debug assertions (profile `devsim`), a run domain of its own and a larger share of large
+/// documents. What a build configuration changes (recursion that release builds turn into loops,
+/// `debug_assert!`s, frame sizes) is one more thing correctness must not depend on.
+fn debug_stage() -> bool {
+    cfg!(debug_assertions)
+}
+
+fn run_domain() -> u64 {
+    if debug_stage() {
+        rng::domain("C05/debug-profile")
+    } else {
+        rng::domain(PROP)
+    }
+}
+
+/// Every case runs on a thread with the default stack of `std::thread::spawn` (2 MiB), which is
+/// what a caller decoding on a worker thread has.
+const CASE_STACK: usize = 2 << 20;
+
 const ALLOC_BASE: u64 = 4 << 20;
 const ALLOC_PER_BYTE: u64 = 256;
 
@@ -165,10 +185,15 @@ pub fn gen_case(rng: &mut Rng, fx: &Fixtures) -> Case {
             Entry::HermesSlice | Entry::HermesReader => Some(zoo::DocKind::SynthHermes),
             _ => None,
         };
+        // debugging aid, never set by the registered commands: force documents whose label contains the text
+        let forced = std::env::var("VERIF_C05_ONLY_DOC").ok().and_then(|w| fx.maps.iter().find(|d| d.label.contains(&w)).cloned());
         let d = match want {
+            _ if forced.is_some() => forced.unwrap(),
             // the amplification documents get a share of their own (they are too large to come
             // up often enough through the size-weighted draw)
-            _ if rng.chance(1, 250) => fx.maps[*rng.pick(&fx.amplify[..])].clone(),
+            _ if rng.chance(1, if debug_stage() { 60 } else { 250 }) => fx.maps[*rng.pick(&fx.amplify[..])].clone(),
+            // and so do the large ones (each costs tens of milliseconds, so a small share)
+            _ if rng.chance(1, if debug_stage() { 150 } else { 8000 }) => fx.maps[*rng.pick(&fx.scale[..])].clone(),
             Some(k) if rng.chance(85, 100) => zoo::draw_kind(rng, fx, k, 2),
             _ => zoo::draw_weighted(rng, fx, 2, &[34, 26, 15, 15, 4, 4, 2]),
         };
@@ -870,7 +895,7 @@ fn child_main(args: &Args) -> i32 {
     for i in lo..hi {
         // announce the run before starting it
         let _ = inflight.write_at(&(i + 1).to_le_bytes(), 0);
-        let run_seed = rng::mix(base_seed, rng::domain(PROP), i);
+        let run_seed = rng::mix(base_seed, run_domain(), i);
         let c = gen_case(&mut Rng::new(run_seed), &fx);
         let ex = execute(&c);
         if i < det_n {
@@ -900,7 +925,22 @@ fn child_main(args: &Args) -> i32 {
 fn replay_child(path: &str) -> i32 {
     let v = simcore::read_json(path);
     let c = Case::from_json(&v["case"]).unwrap_or_else(|| harness_error("replay file: bad case"));
+    let times = std::env::var("VERIF_DEBUG_TIMES").is_ok();
+    if times {
+        work::TIMES.with(|t| *t.borrow_mut() = Some((std::time::Instant::now(), Default::default())));
+    }
     let ex = execute(&c);
+    if times {
+        work::TIMES.with(|t| {
+            if let Some((_, m)) = t.borrow().as_ref() {
+                let mut v: Vec<_> = m.iter().collect();
+                v.sort_by(|a, b| b.1.partial_cmp(a.1).unwrap());
+                for (k, s) in v.iter().take(12) {
+                    eprintln!("time {s:8.3}s  {k}");
+                }
+            }
+        });
+    }
     // a run can violate the property in more than one way (say, a rewrite that panics and a
     // serialised form that does not decode again); a replay file names the one it is about
     if let Some(want) = v["signature"].as_str() {
@@ -1097,32 +1137,57 @@ struct Slot {
     since: std::time::Instant,
 }
 
+fn on_case_thread<F: FnOnce() -> i32 + Send + 'static>(f: F) -> i32 {
+    std::thread::Builder::new()
+        .name("case".into())
+        .stack_size(CASE_STACK)
+        .spawn(f)
+        .unwrap_or_else(|e| harness_error(&format!("spawn case thread: {e}")))
+        .join()
+        .unwrap_or_else(|_| harness_error("case thread panicked outside a monitored call"))
+}
+
 pub fn main(args: &Args) -> i32 {
     if args.flag("--child") {
-        return child_main(args);
+        let a = Args(args.0.clone());
+        return on_case_thread(move || child_main(&a));
     }
     if let Some(p) = args.value("--replay-child") {
-        return replay_child(p);
+        let p = p.to_string();
+        return on_case_thread(move || replay_child(&p));
     }
     if let Some(path) = args.value("--replay") {
         return do_replay(path);
     }
     let tier = simcore::tier_from(args);
     let base_seed = args.num("--seed").unwrap_or_else(simcore::seed_from_env);
+    if let Some(idx) = args.num("--dump-case") {
+        // debugging aid: write run <idx> of this seed as a replay file (stdout names it)
+        let fx = Fixtures::load();
+        let c = gen_case(&mut Rng::new(rng::mix(base_seed, run_domain(), idx)), &fx);
+        let path = format!("{}/replays/{PROP}-{}-{}.case.json", simcore::verif_dir(), base_seed, idx);
+        simcore::write_json_atomic(&path, &json!({"case": c.to_json()}));
+        println!("{path} doc={} entry={} full_workload={}", c.label, c.entry.name(), c.full_workload);
+        return 0;
+    }
     let workers = args.num("--workers").map(|w| w as usize).unwrap_or_else(simcore::par::workers_from_env);
-    let runs = args.num("--runs").unwrap_or(match tier {
-        Tier::Quick => 1_000_000,
-        Tier::Thorough => 60_000_000,
+    let runs = args.num("--runs").unwrap_or(match (tier, debug_stage()) {
+        (Tier::Quick, false) => 1_000_000,
+        (Tier::Thorough, false) => 60_000_000,
+        (Tier::Quick, true) => 30_000,
+        (Tier::Thorough, true) => 1_500_000,
     });
     let det_n = match tier {
         Tier::Quick => 200.min(runs),
         Tier::Thorough => 2000.min(runs),
     };
-    let backstop = match tier {
-        Tier::Quick => 20u64,
-        Tier::Thorough => 120,
+    // unoptimised library code is an order of magnitude slower on the large documents
+    let backstop = match (tier, debug_stage()) {
+        (Tier::Quick, false) => 20u64,
+        (Tier::Thorough, false) => 120,
+        (_, true) => 240,
     };
-    println!("sim_io property={PROP} tier={} VERIF_SEED={base_seed} runs={runs} worker_processes={workers}", tier.name());
+    println!("sim_io property={PROP} tier={} VERIF_SEED={base_seed} runs={runs} worker_processes={workers}{}", tier.name(), if debug_stage() { " stage=debug-profile (library at opt-level 0, debug assertions on)" } else { "" });
     let t0 = std::time::Instant::now();
     let work_dir = format!("{}/sim/target/c05-work-{}", simcore::verif_dir(), std::process::id());
     let _ = std::fs::remove_dir_all(&work_dir);
@@ -1248,7 +1313,7 @@ pub fn main(args: &Args) -> i32 {
         println!("note: {unconfirmed} further runs were in flight when their workers ended; only the lowest {MAX_SUSPECTS} are re-run alone");
     }
     for (idx, how) in suspects {
-        let run_seed = rng::mix(base_seed, rng::domain(PROP), idx);
+        let run_seed = rng::mix(base_seed, run_domain(), idx);
         let c = gen_case(&mut Rng::new(run_seed), &fx);
         let p = format!("{work_dir}/suspect-{idx}.json");
         simcore::write_json_atomic(&p, &json!({"case": c.to_json()}));
@@ -1283,7 +1348,7 @@ pub fn main(args: &Args) -> i32 {
     let mut reported = Vec::new();
     let mut hang_reports = 0;
     for (sig, idx, cnt, detail0) in new.iter().take(8) {
-        let run_seed = rng::mix(base_seed, rng::domain(PROP), *idx);
+        let run_seed = rng::mix(base_seed, run_domain(), *idx);
         let c = gen_case(&mut Rng::new(run_seed), &fx);
         // abort-class signatures carry the entry-point suffix added above; probe on the bare class
         let probe_sig = if sig.starts_with("abort:") || sig.starts_with("hang-backstop") {
@@ -1299,14 +1364,14 @@ pub fn main(args: &Args) -> i32 {
             }
         }
         let (cm, info) = minimise(&c, &probe_sig, &format!("{work_dir}/min-{idx}"));
-        let path = format!("{}/replays/{PROP}-{}-{}.json", simcore::verif_dir(), base_seed, idx);
+        let path = format!("{}/replays/{PROP}-{}{}-{}.json", simcore::verif_dir(), if debug_stage() { "debugprofile-" } else { "" }, base_seed, idx);
         simcore::write_json_atomic(&path, &json!({"case": cm.to_json(), "signature": probe_sig}));
         let (rsig, rhash, rdetail) = run_case_in_child(&path, backstop + 10);
         let (final_case, detail, hash) = if rsig == probe_sig { (cm, rdetail, rhash) } else { (c.clone(), detail0.clone(), String::new()) };
         let d = delivered(&final_case.events);
         simcore::write_json_atomic(
             &path,
-            &json!({"property": PROP, "engine": "sim_io/c05 (SimDisk damage + SimTransport/SimReader + monitors, child process)", "base_seed": base_seed, "run_index": idx,
+            &json!({"property": PROP, "engine": "sim_io/c05 (SimDisk damage + SimTransport/SimReader + monitors, child process)", "profile": if debug_stage() { "devsim" } else { "release" }, "base_seed": base_seed, "run_index": idx,
                     "case": final_case.to_json(), "signature": probe_sig, "detail": detail, "event_hash": hash, "minimisation": info,
                     "delivered_text": String::from_utf8_lossy(&d[..d.len().min(400)])}),
         );
@@ -1399,7 +1464,12 @@ pub fn main(args: &Args) -> i32 {
             "sampled, not exhaustive"
         ],
     });
-    simcore::write_json_atomic(&format!("{}/evidence/{PROP}.json", simcore::verif_dir()), &ev);
+    if debug_stage() {
+        // the driver merges this into evidence/C05.json under coverage.debug_profile_stage
+        simcore::write_json_atomic(&format!("{}/sim/target/{PROP}-debug-stage.json", simcore::verif_dir()), &ev);
+    } else {
+        simcore::write_json_atomic(&format!("{}/evidence/{PROP}.json", simcore::verif_dir()), &ev);
+    }
     println!(
         "runs={} decoded={} damaged={} damaged_decoded={} traces={} nontrivial={} deaths={} backstop={} violating_runs={} wall={:.1}s digest={:016x}",
         acc.runs, acc.decoded, acc.damaged, acc.damaged_decoded, traces, nontrivial, process_deaths, backstop_hits, acc.violations.total(), wall, acc.digest
